@@ -12,11 +12,19 @@
 //	          pool and of a generated set of struct signatures (alone, nested in
 //	          list / map / tuple / struct) with its member names or member types
 //	          shortened or extended so that their counts differ
+//	width     tuples and structs of every width 0..40 (+ boundaries up to 257;
+//	          thorough 0..300, 511..513, 999..1001), alone and nested
+//	          (families.go)
+//	bytes     the byte alphabet 0..255: single bytes, pairs, every byte and a
+//	          pool of valid / invalid UTF-8 sequences at every position of a few
+//	          valid signatures (families.go)
 //
 // Oracle for a grammar signature s with sigen tree t (sentence 1 of the
 // property): Parse(s) succeeds, Signature() == s, SignatureIDL() equals
 // sigen's IDL printer, Type() has the kind tree of t, Reader() and TypeName()
-// return something; Parse(Signature()) succeeds and prints the same string;
+// return something, TypeName() renders as a Go type whose tuple fields are
+// named as those of Type(), struct members are the Go fields of their
+// exported names; Parse(Signature()) succeeds and prints the same string;
 // no call panics. Oracle for an arbitrary string x (sentence 2): Parse(x)
 // returns an error, or a type whose printed form p parses again and prints
 // p and, blanks apart (the parser skips blanks between tokens), x is exactly
@@ -26,8 +34,12 @@
 package main
 
 import (
+	"bytes"
+	"encoding/hex"
 	"encoding/json"
 	"fmt"
+	"go/ast"
+	"go/parser"
 	"hash/fnv"
 	"io"
 	"os"
@@ -210,6 +222,7 @@ func evalSigInline(t *sigen.T) (fails []failure) {
 		var d string
 		if call("Type()", func() { d = matchGo(t, g, "T") }) && d != "" {
 			fails = append(fails, failure{"Type()", "kind-tree-differs", "", "", d})
+			g = nil
 		}
 	}
 	var rd signature.TypeReader
@@ -220,7 +233,140 @@ func evalSigInline(t *sigen.T) (fails []failure) {
 	if call("TypeName()", func() { tn = typ.TypeName() }) && tn == nil {
 		fails = append(fails, failure{"TypeName()", "nil", "", "", "nil statement"})
 	}
+	// Go field names: the two Go representations of the type - the reflect
+	// type of Type() and the Go type expression of TypeName() - name the
+	// members of a tuple identically, and the Go field of a struct member is
+	// that member's name, exported. (void has no Go type expression:
+	// signatures holding v are not judged here.)
+	if tn != nil && g != nil && !t.Contains(isVoid) {
+		var src string
+		var expr ast.Expr
+		var rerr error
+		if call("TypeName()", func() { src, expr, rerr = goTypeExpr(tn) }) {
+			if rerr != nil {
+				fails = append(fails, failure{"TypeName()", "not-a-Go-type", "", "", fmt.Sprintf("%v (rendered %q)", rerr, clip(src))})
+			} else {
+				var d string
+				if call("Type()", func() { d = matchNames(t, g, expr, "T") }) && d != "" {
+					fails = append(fails, failure{"Type()", "field-names-differ", "", "", d})
+				}
+			}
+		}
+	}
 	return fails
+}
+
+func isVoid(x *sigen.T) bool { return x.Kind == sigen.Atom && x.Atom == 'v' }
+
+// goTypeExpr renders the statement returned by TypeName() and parses it as a
+// Go expression (a type).
+func goTypeExpr(tn *signature.Statement) (string, ast.Expr, error) {
+	var buf bytes.Buffer
+	if err := tn.Render(&buf); err != nil {
+		msg := err.Error()
+		if i := strings.Index(msg, " while formatting source"); i >= 0 {
+			msg = msg[:i]
+		}
+		return "", nil, fmt.Errorf("does not render: %s", clip(msg))
+	}
+	e, err := parser.ParseExpr(buf.String())
+	if err != nil {
+		return buf.String(), nil, fmt.Errorf("not a Go expression: %v", err)
+	}
+	return buf.String(), e, nil
+}
+
+// exported is the exported spelling of an identifier.
+func exported(n string) string {
+	if n != "" && n[0] >= 'a' && n[0] <= 'z' {
+		return string(n[0]-'a'+'A') + n[1:]
+	}
+	return n
+}
+
+// matchNames returns "" if the field names of the reflect type g (whose kind
+// tree is already known to match t) are consistent with t and with the Go
+// type expression e (nil where TypeName() gives a bare identifier: below a
+// struct), else the first difference.
+func matchNames(t *sigen.T, g reflect.Type, e ast.Expr, path string) string {
+	switch t.Kind {
+	case sigen.List:
+		var ee ast.Expr
+		if e != nil {
+			a, ok := e.(*ast.ArrayType)
+			if !ok || a.Len != nil {
+				return fmt.Sprintf("%s: TypeName() of a list is not a slice type", path)
+			}
+			ee = a.Elt
+		}
+		return matchNames(t.Elem[0], g.Elem(), ee, path+"[]")
+	case sigen.Map:
+		var k, v ast.Expr
+		if e != nil {
+			a, ok := e.(*ast.MapType)
+			if !ok {
+				return fmt.Sprintf("%s: TypeName() of a map is not a map type", path)
+			}
+			k, v = a.Key, a.Value
+		}
+		if d := matchNames(t.Elem[0], g.Key(), k, path+".key"); d != "" {
+			return d
+		}
+		return matchNames(t.Elem[1], g.Elem(), v, path+".value")
+	case sigen.Tuple:
+		var names []string
+		var types []ast.Expr
+		if e != nil {
+			st, ok := e.(*ast.StructType)
+			if !ok || st.Fields == nil {
+				return fmt.Sprintf("%s: TypeName() of a tuple is not a struct type", path)
+			}
+			for _, f := range st.Fields.List {
+				if len(f.Names) == 0 {
+					names, types = append(names, ""), append(types, f.Type)
+				}
+				for _, n := range f.Names {
+					names, types = append(names, n.Name), append(types, f.Type)
+				}
+			}
+			if len(names) != len(t.Elem) {
+				return fmt.Sprintf("%s: TypeName() declares %d fields for a tuple of %d members", path, len(names), len(t.Elem))
+			}
+		}
+		seen := map[string]int{}
+		for i, m := range t.Elem {
+			n := g.Field(i).Name
+			if j, dup := seen[n]; dup {
+				return fmt.Sprintf("%s: members %d and %d are both the Go field %s", path, j, i, n)
+			}
+			seen[n] = i
+			var me ast.Expr
+			if e != nil {
+				if names[i] != n {
+					return fmt.Sprintf("%s.%d: the Go field of Type() is %q, TypeName() declares %q", path, i, n, names[i])
+				}
+				me = types[i]
+			}
+			if d := matchNames(m, g.Field(i).Type, me, fmt.Sprintf("%s.%d", path, i)); d != "" {
+				return d
+			}
+		}
+	case sigen.Struct:
+		if e != nil {
+			if id, ok := e.(*ast.Ident); !ok || id.Name == "" {
+				return fmt.Sprintf("%s: TypeName() of a struct is not an identifier", path)
+			}
+		}
+		for i, m := range t.Elem {
+			if n := g.Field(i).Name; n != exported(t.Fields[i]) {
+				return fmt.Sprintf("%s.%d: member %q is the Go field %q", path, i, t.Fields[i], n)
+			}
+			if d := matchNames(m, g.Field(i).Type, nil, fmt.Sprintf("%s.%d", path, i)); d != "" {
+				return d
+			}
+		}
+	}
+	return ""
 }
 
 func hasKey(fails []failure, k string) *failure {
@@ -262,22 +408,71 @@ func fingerprintSig(t *sigen.T, f failure) (string, *sigen.T) {
 			break
 		}
 	}
+	// a product wider than the generated universe's 3: does the width
+	// matter? Find a width w such that the first w members fail in the same
+	// way and the first w-1 do not (bisection between 0 and the full width).
+	width := -1
+	if (cur.Kind == sigen.Tuple || cur.Kind == sigen.Struct) && len(cur.Elem) > 3 {
+		failsAt := func(w int) bool {
+			fs, _ := evalSig(prefixOf(cur, w))
+			return hasKey(fs, k) != nil
+		}
+		if !failsAt(0) {
+			lo, hi := 0, len(cur.Elem) // lo passes, hi fails
+			for hi-lo > 1 {
+				if mid := (lo + hi) / 2; failsAt(mid) {
+					hi = mid
+				} else {
+					lo = mid
+				}
+			}
+			if hi < len(cur.Elem) {
+				cur = prefixOf(cur, hi)
+			}
+			if hi > 3 {
+				width = hi
+			}
+		} else {
+			cur = prefixOf(cur, 0)
+		}
+	}
 	detail := nodeDetail(cur)
 	if cur.Kind == sigen.Struct {
 		// do the names matter? try the same struct with the plainest names
 		plain := cur.Clone()
 		plain.Name = "A"
 		for i := range plain.Fields {
-			plain.Fields[i] = string(rune('a' + i))
+			plain.Fields[i] = plainMember(i)
 		}
 		if fs, _ := evalSig(plain); hasKey(fs, k) != nil {
 			detail = nodeDetail(plain)
 		}
 	}
+	if width >= 0 {
+		detail += fmt.Sprintf("[width=%d]", width)
+	}
 	if f.clause == "panic" {
 		detail = f.msg + "@" + f.site + "/" + detail
 	}
 	return report.FPEscape(f.entry + "/" + f.clause + "/" + detail), cur
+}
+
+// prefixOf is the tuple / struct x reduced to its first w members.
+func prefixOf(x *sigen.T, w int) *sigen.T {
+	c := x.Clone()
+	c.Elem = c.Elem[:w]
+	if c.Kind == sigen.Struct {
+		c.Fields = c.Fields[:w]
+	}
+	return c
+}
+
+// plainMember is the plainest name of member i: a..z, then x26, x27...
+func plainMember(i int) string {
+	if i < 26 {
+		return string(rune('a' + i))
+	}
+	return fmt.Sprintf("x%d", i)
 }
 
 // nodeDetail names the root constructor of a subtree.
@@ -371,6 +566,40 @@ func evalArbInline(x string) (fails []failure, accepted bool, printed string, tr
 		treeFails = evalSigInline(t)
 	}
 	return
+}
+
+// shrinkArb deletes single bytes of x, first to last, again and again, as
+// long as the failure with key k remains (a deterministic 1-minimal input);
+// then every byte left that is not printable ASCII is replaced by the first
+// character of the grammar alphabet that keeps the failure, if there is one.
+// A non-ASCII or control byte in the result is therefore one the failure
+// needs.
+func shrinkArb(x, k string) string {
+	same := func(y string) bool {
+		fs, slow, _, _, _, _ := evalArb(y)
+		return !slow && hasKey(fs, k) != nil
+	}
+	for changed := true; changed; {
+		changed = false
+		for i := 0; i < len(x); i++ {
+			if y := x[:i] + x[i+1:]; same(y) {
+				x, changed = y, true
+				i--
+			}
+		}
+	}
+	for i := 0; i < len(x); i++ {
+		if byteClass(x[i:i+1]) == "" {
+			continue
+		}
+		for j := 0; j < len(arbAlphabet); j++ {
+			if y := x[:i] + arbAlphabet[j:j+1] + x[i+1:]; same(y) {
+				x = y
+				break
+			}
+		}
+	}
+	return x
 }
 
 // judgeAcceptedGarbage: "any other input is rejected with an error" is read
@@ -604,6 +833,11 @@ func arityNearMiss(g sigen.Gen, wide int, emit func(string) bool) (bases, nodes 
 type witness struct {
 	fp, what, input, family, minimal string
 	count                            int
+	// again: the representative case failed in the same way when it was
+	// evaluated a second time at once, in the state it was observed in;
+	// notAgain counts the cases that did not.
+	again    bool
+	notAgain int
 }
 
 type wstate struct {
@@ -630,6 +864,14 @@ func clip(s string) string {
 	return s
 }
 
+// clipq quotes s, shortened in the middle when it is long (wide signatures).
+func clipq(s string) string {
+	if len(s) > 200 {
+		return fmt.Sprintf("%q...(%d bytes)...%q", s[:100], len(s), s[len(s)-60:])
+	}
+	return fmt.Sprintf("%q", s)
+}
+
 // sample keeps, per family, the 4 case descriptions with the smallest FNV
 // hash: a deterministic, scheduling-independent selection.
 func (st *wstate) sample(family, s string) {
@@ -648,15 +890,20 @@ func (st *wstate) sample(family, s string) {
 	st.samples[family] = l
 }
 
-func (st *wstate) record(fp, what, input, family, minimal string) {
+func (st *wstate) record(fp, what, input, family, minimal string, again bool) {
+	na := 0
+	if !again {
+		na = 1
+	}
 	w, ok := st.wit[fp]
 	if !ok {
-		st.wit[fp] = &witness{fp, what, input, family, minimal, 1}
+		st.wit[fp] = &witness{fp, what, input, family, minimal, 1, again, na}
 		return
 	}
 	w.count++
+	w.notAgain += na
 	if len(minimal) < len(w.minimal) || len(minimal) == len(w.minimal) && minimal < w.minimal {
-		w.what, w.input, w.family, w.minimal = what, input, family, minimal
+		w.what, w.input, w.family, w.minimal, w.again = what, input, family, minimal, again
 	}
 }
 
@@ -664,18 +911,25 @@ func (st *wstate) record(fp, what, input, family, minimal string) {
 // fed to the check to see them again (the signature itself, or the arbitrary
 // string whose printed form t is).
 func (st *wstate) sigFailures(t *sigen.T, fails []failure, family, input string, arb bool) {
+	if len(fails) == 0 {
+		return
+	}
+	// second evaluation at once, in the state the failure was observed in
+	// (before the localisation below evaluates anything else)
+	fails2, _ := evalSig(t)
 	for _, f := range fails {
+		again := hasKey(fails2, f.key()) != nil
 		fp, min := fingerprintSig(t, f)
 		ms := t.Sig()
 		if min != nil && min != t {
 			ms = min.Sig()
 			f = failureOn(min, f.key(), f)
 		}
-		what := fmt.Sprintf("%s on signature %q: %s %s", f.entry, ms, f.clause, clip(f.detail))
+		what := fmt.Sprintf("%s on signature %s: %s %s", f.entry, clipq(ms), f.clause, clip(f.detail))
 		if arb {
-			what += fmt.Sprintf(" (first seen as the printed form of input %q)", input)
+			what += fmt.Sprintf(" (first seen as the printed form of input %s)", clipq(input))
 		}
-		st.record(fp, what, input, family, ms)
+		st.record(fp, what, input, family, ms, again)
 	}
 }
 
@@ -694,7 +948,7 @@ func (st *wstate) doSig(c kase) {
 	if c.t.Kind != sigen.Atom {
 		st.distinct[c.t.Shape()+" => "+out] = struct{}{}
 	}
-	st.sample(c.family, c.t.Sig()+" => "+out)
+	st.sample(c.family, clip(c.t.Sig())+" => "+out)
 	st.sigFailures(c.t, fails, c.family, c.t.Sig(), false)
 }
 
@@ -718,11 +972,24 @@ func (st *wstate) doArb(c kase) {
 	} else if len(fails) == 0 && c.idx%4099 == 1 {
 		st.sample(c.family+"\x00rej", fmt.Sprintf("%q rejected with an error", c.x))
 	}
+	var fails2 []failure
+	if len(fails) > 0 {
+		// second evaluation at once, in the state the failure was observed in
+		fails2, _, _, _, _, _ = evalArb(c.x)
+	}
 	for _, f := range fails {
 		detail := ""
+		minimal := c.x
 		switch {
 		case f.clause == "panic":
 			detail = f.msg + "@" + f.site
+			// which bytes does the crash need? delete bytes one at a time as
+			// long as the same failure remains; what is unusual about the
+			// bytes that are left is part of the fingerprint
+			minimal = shrinkArb(c.x, f.key())
+			if cl := byteClass(minimal); cl != "" {
+				detail += "/" + cl
+			}
 		case f.clause == "accepts-non-signature":
 			sx := stripBlanks(c.x)
 			switch {
@@ -741,7 +1008,11 @@ func (st *wstate) doArb(c kase) {
 			detail = "printed-form-is-not-a-signature"
 		}
 		fp := report.FPEscape(f.entry + "/" + f.clause + "/" + detail)
-		st.record(fp, fmt.Sprintf("%s on input %q: %s %s", f.entry, c.x, f.clause, clip(f.detail)), c.x, c.family, c.x)
+		what := fmt.Sprintf("%s on input %q: %s %s", f.entry, c.x, f.clause, clip(f.detail))
+		if minimal != c.x {
+			what += fmt.Sprintf(" (so does %q)", minimal)
+		}
+		st.record(fp, what, c.x, c.family, minimal, hasKey(fails2, f.key()) != nil)
 	}
 	if tree != nil {
 		st.sigFailures(tree, treeFails, c.family, c.x, true)
@@ -755,7 +1026,7 @@ func main() {
 	}
 	tier := report.Tier()
 	start := time.Now()
-	budget := 42 * time.Second
+	budget := 60 * time.Second // only reached on a heavily loaded machine (a normal run takes about 15 s)
 	workers := 8
 	if tier == "thorough" {
 		budget = 520 * time.Second
@@ -808,6 +1079,10 @@ func main() {
 	// family 2: name hygiene
 	runFam("hygiene", fmt.Sprintf("12 struct shapes x struct names %v x member names %v (distinct member names)", hygieneStructNames, hygieneFieldNames),
 		func(emit func(kase) bool) { hygiene(func(t *sigen.T) bool { return emit(kase{t: t}) }) })
+	// family 2b: width
+	wspec := widthsOf(tier)
+	runFam("width", widthUniverse(wspec),
+		func(emit func(kase) bool) { widthFamily(wspec, func(t *sigen.T) bool { return emit(kase{t: t}) }) })
 	// family 3: near misses
 	var corpus []string
 	gc := sigen.Default(2)
@@ -833,6 +1108,40 @@ func main() {
 		func(emit func(kase) bool) {
 			arityBasesN, arityNodesN = arityNearMiss(ga, wide, func(x string) bool { return emit(kase{x: x}) })
 		})
+	// family 3c: the whole byte alphabet
+	runFam("bytes:single", "each of the 256 one-byte strings", func(emit func(kase) bool) {
+		for _, b := range allBytes() {
+			if !emit(kase{x: b}) {
+				return
+			}
+		}
+	})
+	runFam("bytes:len=2", "all 65536 two-byte strings over the byte values 0..255", func(emit func(kase) bool) {
+		all := allBytes()
+		for _, a := range all {
+			for _, b := range all {
+				if !emit(kase{x: a + b}) {
+					return
+				}
+			}
+		}
+	})
+	runFam("bytes:positions", fmt.Sprintf("every byte value 0..255 inserted at every gap (before the first byte ... after the last) and substituted for every byte of each of the valid signatures %q "+
+		"(so: between tokens, inside a struct name, a template argument, a member name); duplicates removed", byteBases),
+		func(emit func(kase) bool) {
+			bytePositions(byteBases, allBytes(), func(x string) bool { return emit(kase{x: x}) })
+		})
+	runFam("bytes:utf8", fmt.Sprintf("%d multi-byte sequences - valid UTF-8 of 2, 3 and 4 bytes (letters, a digit, blanks, BOM, replacement character, fullwidth forms, first and last code point of each length, a combining sequence) "+
+		"and invalid UTF-8 (lone continuation bytes, truncated sequences, overlong forms, surrogates, beyond U+10FFFF, 5-byte form, 0xfe / 0xff, a lead byte followed by ASCII): %+q - "+
+		"inserted at every gap and substituted for every byte of the same signatures; duplicates removed", len(utf8Pool), utf8Pool),
+		func(emit func(kase) bool) {
+			bytePositions(byteBases, utf8Pool, func(x string) bool { return emit(kase{x: x}) })
+		})
+	{
+		a3 := byteAlphabet3()
+		runFam("bytes:len=3", fmt.Sprintf("all 3-byte strings over the %d-byte alphabet %+q (the grammar alphabet and 20 bytes that are not printable ASCII)", len(a3), a3),
+			func(emit func(kase) bool) { arbStringsOver(a3, 3, func(x string) bool { return emit(kase{x: x}) }) })
+	}
 	// family 4: arbitrary strings
 	maxLen := 4
 	if tier == "thorough" {
@@ -939,20 +1248,39 @@ func main() {
 	sort.Strings(fps)
 	for _, fp := range fps {
 		w := total.wit[fp]
-		okAll := true
+		nOK := 0
+		toolErr := ""
 		for i := 0; i < 5; i++ {
-			if !reproduces(w) {
-				okAll = false
+			ok, terr := reproduces(w)
+			if ok {
+				nOK++
+			}
+			if terr != "" {
+				toolErr = terr
 			}
 		}
-		if !okAll {
-			chk.EngineError("violation %s on %q did not reproduce 5/5", fp, w.input)
+		if toolErr != "" { // the machinery itself failed: the only engine error here
+			chk.EngineError("violation %s on %q cannot be re-run: %s", fp, w.input, toolErr)
 			continue
 		}
-		rep := map[string]interface{}{"family": w.family, "input": w.input, "minimal_input": w.minimal, "cases_with_this_fingerprint": w.count,
-			"replay_cmd": "./check.sh C09 quick --replay <this file>"}
+		// input_hex / minimal_input_hex: the exact bytes (JSON strings cannot
+		// hold invalid UTF-8); --replay prefers them
+		rep := map[string]interface{}{"family": w.family, "input": w.input, "minimal_input": w.minimal,
+			"input_hex": hex.EncodeToString([]byte(w.input)), "minimal_input_hex": hex.EncodeToString([]byte(w.minimal)),
+			"cases_with_this_fingerprint":                          w.count,
+			"failed_again_at_once_in_the_state_it_was_observed_in": w.again, "cases_that_did_not_fail_again_at_once": w.notAgain,
+			"failed_when_re_run_alone": fmt.Sprintf("%d/5", nOK),
+			"replay_cmd":               "./check.sh C09 quick --replay <this file>"}
+		what := fmt.Sprintf("%s [%d cases share this fingerprint]", w.what, w.count)
+		if nOK < 5 {
+			// really observed during the enumeration, not (always) failing when
+			// re-run on its own: the code under test keeps state between calls.
+			// A detection, not a tool failure.
+			chk.Unstable(fp, fmt.Sprintf("%s [failed again at once in the same state: %v; failed %d/5 when re-run alone after the enumeration]", what, w.again, nOK), rep)
+			continue
+		}
 		for i := 0; i < w.count && i < 1000000; i++ {
-			chk.Report(fp, fmt.Sprintf("%s [%d cases share this fingerprint]", w.what, w.count), rep)
+			chk.Report(fp, what, rep)
 		}
 	}
 
@@ -979,8 +1307,12 @@ func main() {
 		"distinct_nontrivial": len(total.distinct) + len(total.accepted),
 		"rule": "every element of each family's stated universe is generated and judged. distinct_nontrivial = number of distinct (signature shape, outcome class) pairs among the generated COMPOSITE signatures " +
 			"(shape = constructor tree with atoms reduced to int/flt/bool/str/any/obj/unk/void and names to plain/lower/+_9/template; outcome = ok or first failed entry/clause) " +
-			"+ number of distinct printed forms among the arbitrary / near-miss / struct-arity-near-miss strings the parser ACCEPTED (rejected strings and bare atoms are counted as trivial). " +
-			"The arbitrary, nearmiss and arity families are judged by sentence 2 of the property: rejected with an error, or accepted with a printed form that is a fixed point and equals the input (blanks apart); never a panic. " +
+			"+ number of distinct printed forms among the arbitrary / near-miss / struct-arity-near-miss / bytes strings the parser ACCEPTED (rejected strings and bare atoms are counted as trivial). " +
+			"The arbitrary, nearmiss, arity and bytes families are judged by sentence 2 of the property: rejected with an error, or accepted with a printed form that is a fixed point and equals the input (blanks apart); never a panic. " +
+			"width = tuples and structs of every width of a stated range (not only the 0..3 of the generated universe), alone and nested, judged by sentence 1; a failure there is localised to a width w such that the first w members fail and the first w-1 do not (fingerprint detail [width=w]). " +
+			"bytes = the byte alphabet 0..255: every single byte, every pair, every byte and a pool of valid / invalid UTF-8 sequences at every position of a few valid signatures; a crash is reduced by single-byte deletions and the fingerprint says whether the remaining input needs a non-ASCII or a control byte. " +
+			"Sentence 1 includes: the Go field names of Type() agree with the Go type expression TypeName() renders (tuple members) and with the exported member names (struct members). " +
+			"Every failure is evaluated a second time at once (same process state) and 5 times alone after the enumeration: one that does not fail 5/5 alone is reported under <fingerprint>/depends-on-earlier-calls. " +
 			"arity = the struct annotations of valid signatures with the number of member names made different from the number of member types (names emptied / shortened / extended, types shortened / extended), at every struct position",
 		"distinct_shape_outcome_pairs":    len(total.distinct),
 		"distinct_accepted_printed_forms": len(total.accepted),
@@ -1000,8 +1332,10 @@ func main() {
 			"If the deadline stops a family its `complete` is false and `cases` is the number of cases judged before the stop.",
 	}
 	assumptions := []string{
-		"small-scope hypothesis: printer/parser drift shows on signatures of depth <= 2 (3 in thorough) and width <= 2 (3)",
-		"the Go representation of m, o, X and v is not fixed by the property: any non-nil reflect.Type is accepted for them; member names of Go structs are not compared; Type() is not judged on a struct that names two members identically",
+		"small-scope hypothesis: printer/parser drift shows on signatures of depth <= 2 (3 in thorough); width: every combination of members up to width 2 (3), and every width of the stated range of the width family over fixed member patterns",
+		"the Go representation of m, o, X and v is not fixed by the property: any non-nil reflect.Type is accepted for them; Type() is not judged on a struct that names two members identically",
+		"Go field names: no naming convention is imposed on tuple members - Type() and the Go type expression rendered by TypeName() must name them identically and distinctly; a struct member must be the Go field with its exported name (first letter upper-cased); void has no Go type expression, so signatures holding v are not judged by this clause",
+		"bytes outside printable ASCII are not part of the grammar: a string holding one must be rejected with an error (or, if accepted, be its own printed form blanks apart, blanks being what unicode.IsSpace says)",
 		"sigen (own AST, printers, recogniser) is the reference; the IDL spellings int8..uint64/float32/float64/bool/str/any/obj/unknown/nothing/Vec<>/Map<,>/Tuple<> are taken from the IDL documentation (doc/introduction.md) and idl basic type table",
 		"parser time and memory are property C07's business: a case slower than 10 s is skipped and counted under skipped_slow",
 	}
@@ -1018,21 +1352,27 @@ func dedup(l []string) []string {
 	return out
 }
 
+// sigFamily: the families whose cases are sigen trees (sentence 1).
+func sigFamily(name string) bool {
+	return strings.HasPrefix(name, "gen") || name == "hygiene" || name == "width"
+}
+
 // reproduces re-evaluates a witness from scratch and checks that the same
-// fingerprint comes out.
-func reproduces(w *witness) bool {
+// fingerprint comes out. toolErr is set when the case cannot be rebuilt at
+// all (a failure of the machinery, not of the code under test).
+func reproduces(w *witness) (ok bool, toolErr string) {
 	st := newState()
-	if strings.HasPrefix(w.family, "gen") || w.family == "hygiene" {
+	if sigFamily(w.family) {
 		t, ok := sigen.Recognize(w.input)
 		if !ok {
-			return false
+			return false, "the reference recogniser refuses a signature the reference generator produced"
 		}
 		st.doSig(kase{family: w.family, t: t})
 	} else {
 		st.doArb(kase{family: w.family, x: w.input})
 	}
-	_, ok := st.wit[w.fp]
-	return ok
+	_, ok = st.wit[w.fp]
+	return ok, ""
 }
 
 // replay re-runs the input stored in a replay file and prints what happens.
@@ -1047,11 +1387,20 @@ func replay(path string) int {
 		Replay      struct {
 			Family, Input string
 			Minimal       string `json:"minimal_input"`
+			InputHex      string `json:"input_hex"`
+			MinimalHex    string `json:"minimal_input_hex"`
 		} `json:"replay"`
 	}
 	if err := json.Unmarshal(data, &f); err != nil {
 		fmt.Println(err)
 		return 2
+	}
+	// the exact bytes, when the file has them
+	if b, err := hex.DecodeString(f.Replay.InputHex); err == nil && f.Replay.InputHex != "" {
+		f.Replay.Input = string(b)
+	}
+	if b, err := hex.DecodeString(f.Replay.MinimalHex); err == nil && f.Replay.MinimalHex != "" {
+		f.Replay.Minimal = string(b)
 	}
 	code := 0
 	for _, in := range []string{f.Replay.Input, f.Replay.Minimal} {
